@@ -75,7 +75,7 @@ class Runner:
     def __init__(self, sc, hooks: Optional[Dict[str, Callable]] = None):
         self.sc = sc
         self.c = Cluster(sc['names'], sc['phens'], cache=sc.get('cache', 1000), periods=sc.get('periods'),
-                         with_action=sc.get('with_action', True))
+                         with_action=sc.get('with_action', True), quiet=sc.get('quiet', ()))
         self.obs: Dict[str, Obs] = {n: Obs() for n in sc['names']}
         self.violations: List[Tuple[str, str, int]] = []   # (sig, what, step)
         self.step = -1
@@ -148,6 +148,14 @@ class Runner:
                 self.fail('remote-completion-executed-action',
                           f"instance {n} executed the action {ex[k0]} time(s) for pattern {k0[0]} / history {k0[1]} but completed "
                           f"{loc[k0]} such run(s) itself (the others were learned from a peer)")
+        # a notification kept by a subscriber is a snapshot (C12)
+        for n, inst in self.c.insts.items():
+            ch = inst.drec.changed()
+            if ch is not None:
+                self.fail('published-snapshot-changed',
+                          f"the {ch[1]} list of notification #{ch[0]} handed to a decider subscriber of {n} held {ch[2]} run record(s) "
+                          f"when it was handed over and holds {ch[3]} now")
+                inst.drec.kept = []
         # resync-before-incremental (C06): a successful send after an outage >= period_resync must be a RESYNC
         pr = (self.sc.get('periods') or {}).get('period_resync', 60)
         for n, inst in self.c.insts.items():
